@@ -152,7 +152,8 @@ BASE = dict(upem=1000, ascender=800, descender=-200, width=1000, family="Base Fa
 
 
 def run_job(job):
-    field, mode, base, v_file, v_flag, expect = job
+    field, mode, base, v_file, v_flag, expect = job[:6]
+    earlier = job[6] if len(job) > 6 else None  # a value the same build directory was built with just before
     with scratch_dir("verif-c20-") as d:
         sd = d / "src"
         sd.mkdir()
@@ -165,9 +166,22 @@ def run_job(job):
             filecfg[field] = v_file
         if mode in ("flag", "both"):
             args += flag_args(field, v_flag)
+        if earlier is not None:
+            first = dict(filecfg)
+            first_args = []
+            if mode == "file":
+                first[field] = earlier
+            else:
+                first_args = flag_args(field, earlier)
+            (d / "cfg.toml").write_text("".join(f"{k} = {toml_value(v)}\n" for k, v in first.items()) + MASTER)
+            rc0, out0 = build.run_cli(["--build_dir", d / "build"] + first_args + [d / "cfg.toml"], cwd=d)
+            if rc0 != 0:
+                return dict(field=field, mode=mode, earlier_value=earlier, exit=rc0, log=out0[-1000:]), None
         (d / "cfg.toml").write_text("".join(f"{k} = {toml_value(v)}\n" for k, v in filecfg.items()) + MASTER)
         rc, out = build.run_cli(["--build_dir", d / "build"] + args + [d / "cfg.toml"], cwd=d)
         res = dict(field=field, mode=mode, file_value=v_file if mode in ("file", "both") else None, flag_value=v_flag if mode in ("flag", "both") else None, exit=rc)
+        if earlier is not None:
+            res["earlier_value_in_the_same_build_dir"] = earlier
         if rc != 0:
             res["log"] = out[-1000:]
             return res, None
@@ -297,6 +311,17 @@ def main(argv):
         if len(vals) > 2:
             for v, e in vals[2:]:
                 jobs.append((field, "flag", base, None, v, e))
+        if field in ("family", "upem", "width", "linegap", "keep_glyph_names", "clipbox_quantization", "version_major"):
+            # the option changed between two runs in one build directory: the second font follows the second value
+            (v1, e1), (v2, e2) = vals[0], vals[1]
+            jobs.append((field, "flag", base, None, v2, e2, v1))
+            jobs.append((field, "file", base, v1, None, e1, v2))
+        if field == "keep_glyph_names":
+            # ... and in the charstring flavours (names live in post for CFF2, in the CFF table for CFF)
+            for fmt_, exp_off in (("cff2_colr_1", 3.0), ("cff_colr_1", 3.0), ("cff2_colr_0", 3.0)):
+                b_ = {"color_format": fmt_, "output_file": "Font.otf"}
+                jobs.append((field, "file", b_, False, None, exp_off))
+                jobs.append((field, "flag", b_, None, True, 2.0 if fmt_.startswith("cff2") else (lambda o: o in (2.0, 3.0))))
     if tier == "quick":
         rng.shuffle(jobs)
         # every field at least once, 24 builds
@@ -305,7 +330,10 @@ def main(argv):
             if j[0] not in seen:
                 seen.add(j[0])
                 pick.append(j)
-        pick += [j for j in jobs if j not in pick][: max(0, 26 - len(pick))]
+        reruns = [j for j in jobs if len(j) > 6 and j not in pick]
+        cffs = [j for j in jobs if j[0] == "keep_glyph_names" and "output_file" in j[2] and j not in pick]
+        pick += reruns[:3] + cffs[:2]
+        pick += [j for j in jobs if j not in pick][: max(0, 30 - len(pick))]
         jobs = pick
     with ThreadPoolExecutor(max_workers=12) as ex:
         results = list(ex.map(run_job, jobs))
